@@ -150,7 +150,11 @@ func plan(tier string, seed int64) []run.Batch {
 	}
 	var bs []run.Batch
 	add := func(kind string, i int, params map[string]string) {
-		bs = append(bs, run.Batch{Kind: kind, Seed: seed*1000 + int64(len(bs)), TimeoutS: 110, Params: params, N: i})
+		to := 110
+		if strings.HasPrefix(kind, "prod-") {
+			to = 300 // hosts no test-mode server (those panic by design after 120 s)
+		}
+		bs = append(bs, run.Batch{Kind: kind, Seed: seed*1000 + int64(len(bs)), TimeoutS: to, Params: params, N: i})
 	}
 	if tier == "thorough" {
 		for i := 0; i < 16; i++ {
@@ -364,6 +368,12 @@ func (p *prober) devFor(slot uint32) (*drv.Dev, error) {
 	}
 	p.next++
 	d, err := p.w.AddDevice(1000+p.next, 1<<40)
+	for try := 0; err != nil && try < 3; try++ {
+		// transport error (the test-mode server closes idle keep-alive
+		// connections after 2.5 s): authorize another fresh id
+		p.next++
+		d, err = p.w.AddDevice(1000+p.next, 1<<40)
+	}
 	if err != nil {
 		return nil, err
 	}
@@ -986,6 +996,7 @@ func post(c *ev.Check, outs []*run.Outcome) {
 	c.Require("measured_catchup", 1)
 	c.Require("accepted_low", 100)
 	c.Require("accepted_high", 100)
+	c.Require("accepted_high_window_end_beyond_2^32", 100)
 	c.Require("preseeded_high_offset_adopted", int64(len(highOffsets)))
 	c.Require("rotations_observed", 5)
 	c.Require("probes_via_socket", 50)
